@@ -20,7 +20,7 @@ func init() {
 		Doc: "scanner progress: every cycle of the scanner's CFG contains an increment of the position", Run: lex2})
 	register(&Rule{ID: "LEX-3", Props: []string{"C08", "C18"}, Floor: 1,
 		Doc: "consume => emit: no iteration of the main loop advances the position without emitting a token, except in the blank cases", Run: lex3})
-	register(&Rule{ID: "LEX-4", Props: []string{"C08"}, Floor: 6,
+	register(&Rule{ID: "LEX-4", Props: []string{"C08", "C18"}, Floor: 6,
 		Doc: "faithful tokens: the position given to an emit is the position at the start of the iteration; the text is usage[start:pos] (or a suffix of it) or a constant; one-byte tokens carry the character that selected the case", Run: lex4})
 	register(&Rule{ID: "LEX-5", Props: []string{"C03", "C08"}, Floor: 3,
 		Doc: "error positions: every ParseError takes Pos from the scanner position, a token's Pos or len(spec), and Input from the string those positions refer to", Run: lex5})
@@ -1550,6 +1550,75 @@ func lex4(c *Ctx) {
 						}
 					}
 					return true
+				case *ssa.Field, *ssa.UnOp:
+					// table[c].text with c the byte the iteration started at, found (comma-ok) in a
+					// package-level map of struct literals in which every entry's text is its own key,
+					// one ASCII character: one byte of the input
+					lk, fi, okF := tableField(x)
+					if !okF || !lk.CommaOk {
+						return false
+					}
+					ix, isIx := lk.Index.(*ssa.Index)
+					if !isIx || !m.isUsage(ix.X) || !iterationStart(ix.Index) {
+						return false
+					}
+					found := false
+					for _, cd := range ir.DominatingConds(cv.Block()) {
+						if ex, isEx := cd.V.(*ssa.Extract); isEx && ex.Index == 1 && cd.Want && ex.Tuple == ssa.Value(lk) {
+							found = true
+						}
+					}
+					ents, okE := mapTableStructEntries(lk.X)
+					if !found || !okE {
+						return false
+					}
+					for k, flds := range ents {
+						if flds[fi] == nil {
+							return false
+						}
+						sv, isS := ir.ConstString(flds[fi])
+						if !isS || k < 0 || k >= 0x80 || sv != string(rune(k)) {
+							return false
+						}
+					}
+					return true
+				case *ssa.Convert:
+					// string(c) with c the byte the iteration started at, found (comma-ok) among the
+					// keys of a package-level table whose keys are all ASCII: one byte of the input
+					bt, isB := x.Type().Underlying().(*types.Basic)
+					if !isB || bt.Kind() != types.String {
+						return false
+					}
+					var byteV ssa.Value = x.X
+					if cv2, isCv := byteV.(*ssa.Convert); isCv {
+						byteV = cv2.X
+					}
+					ix, isIx := byteV.(*ssa.Index)
+					if !isIx || !m.isUsage(ix.X) || !iterationStart(ix.Index) {
+						return false
+					}
+					for _, cd := range ir.DominatingConds(cv.Block()) {
+						ex, isEx := cd.V.(*ssa.Extract)
+						if !isEx || ex.Index != 1 || !cd.Want {
+							continue
+						}
+						lk, isLk := ex.Tuple.(*ssa.Lookup)
+						if !isLk || !lk.CommaOk || lk.Index != byteV {
+							continue
+						}
+						if keys, okK := mapTableIntKeys(lk.X); okK && len(keys) > 0 {
+							ascii := true
+							for _, k := range keys {
+								if k < 0 || k >= 0x80 {
+									ascii = false
+								}
+							}
+							if ascii {
+								return true
+							}
+						}
+					}
+					return false
 				case *ssa.Slice:
 					if m.isUsage(x.X) {
 						if start != nil && x.Low == start && x.High != nil && m.isPosLoad(x.High) {
@@ -1707,6 +1776,81 @@ func lex4(c *Ctx) {
 				c.Check(okSecond, key+":second-byte", cv.Pos(), "emitted only after the byte behind the leading '-' was found to be "+what, bad)
 			}
 		}
+		// argument names: the byte that starts one is an upper-case letter. The bytes for which this emit
+		// can be reached are tabulated from the branch outcomes that dominate it and depend on nothing but
+		// the byte at the iteration's start (an outcome that cannot be evaluated admits every byte).
+		isArgKind := false
+		for _, k := range kinds {
+			if k == "Arg" {
+				isArgKind = true
+			}
+		}
+		if isArgKind {
+			firstByte := func(v ssa.Value) bool {
+				ix, isIx := v.(*ssa.Index)
+				return isIx && m.isUsage(ix.X) && iterationStart(ix.Index)
+			}
+			if admitted, opaque := admittedBytes(ir.DominatingConds(cv.Block()), firstByte); !opaque {
+				got := renderClass(admitted)
+				c.Check(got == "A-Z", key+":first-byte", cv.Pos(), "reached only when the byte at the start of the token is in [A-Z]: an argument name starts with an upper-case letter",
+					fmt.Sprintf("an argument name can start with a byte outside [A-Z] (or not with every upper-case letter): the bytes admitted by the tests that dominate this emit are [%s]", got))
+			}
+		}
+		// names scanned by a loop: the scan goes on to the next byte only over a byte of the name's class
+		// (argument names [0-9A-Z_], long option names [-0-9A-Za-z_]). The stores that advance the position
+		// inside a loop of this arm are looked at: the bytes admitted by the branch outcomes that dominate
+		// such a store and depend on the byte under the cursor only. A flag argument of a class that
+		// cannot be evaluated (`first`) is tried both ways.
+		{
+			wantClass := ""
+			for _, k := range kinds {
+				switch k {
+				case "Arg":
+					wantClass = "0-9A-Z_"
+				case "LongOpt":
+					wantClass = "-0-9A-Z_a-z"
+				}
+			}
+			if wantClass != "" {
+				n := 0
+				for _, st := range m.stores {
+					st := st
+					// the byte under the cursor as it stands when the store runs
+					curByte := func(v ssa.Value) bool {
+						ix, isIx := v.(*ssa.Index)
+						if !isIx || !m.isUsage(ix.X) || !m.isPosLoad(ix.Index) {
+							return false
+						}
+						return m.noStoreBetween(ix.Index.(ssa.Instruction), st)
+					}
+					sb := st.Block()
+					if sb.Parent() != fn || sb == main {
+						continue
+					}
+					inner := false
+					for _, sc := range sb.Succs {
+						if sc == sb || (sc != main && ir.Reach(sc, map[*ssa.BasicBlock]bool{main: true}, nil)[sb]) {
+							inner = true
+						}
+					}
+					if !inner || !(sb == cv.Block() || ir.Reach(sb, map[*ssa.BasicBlock]bool{main: true}, nil)[cv.Block()]) {
+						continue
+					}
+					admitted, opaque := admittedBytes(ir.DominatingConds(sb), curByte)
+					if opaque {
+						continue
+					}
+					n++
+					got := renderClass(admitted)
+					k2 := key + ":name-bytes"
+					if n > 1 {
+						k2 += fmt.Sprintf("#%d", n)
+					}
+					c.Check(got == wantClass, k2, st.Pos(), "the scan steps over a byte only when it is in ["+wantClass+"]",
+						fmt.Sprintf("the scan of this name steps over bytes [%s], expected [%s]", got, wantClass))
+				}
+			}
+		}
 		// `=<text>`: the text is free: in the case selected by '=' the bytes of the input are tested
 		// against '<' and '>' only (no character class decides where the annotation ends)
 		isOptValue := false
@@ -1844,7 +1988,22 @@ func kindsOf(v ssa.Value) []string {
 				out = append(out, "?")
 			}
 			out = append(out, ks...)
+		case *ssa.Field:
+			// table[c].kind with table a package-level map of struct literals
+			if lk, fi, okF := tableField(x); okF {
+				if ks, okK := structTableStrings(lk, fi); okK {
+					out = append(out, ks...)
+					return
+				}
+			}
+			out = append(out, "?")
 		case *ssa.UnOp:
+			if lk, fi, okF := tableField(x); okF {
+				if ks, okK := structTableStrings(lk, fi); okK {
+					out = append(out, ks...)
+					return
+				}
+			}
 			// table[c]: a package-level array filled by the initialiser, read at the byte values the
 			// enclosing case admits
 			if ks := arrayTableValuesAt(x); len(ks) > 0 {
@@ -1962,6 +2121,228 @@ func arrayTableValuesAt(ld *ssa.UnOp) []string {
 
 // mapTableValues: m is the load of a package-level map that the package initialiser fills with
 // constant string values; returns those values.
+// mapTableIntKeys: the constant integer keys of a package-level map that only its literal fills.
+func mapTableIntKeys(m ssa.Value) ([]int64, bool) {
+	ld, ok := m.(*ssa.UnOp)
+	if !ok {
+		return nil, false
+	}
+	g, ok := ld.X.(*ssa.Global)
+	if !ok || g.Pkg == nil {
+		return nil, false
+	}
+	init, _ := g.Pkg.Members["init"].(*ssa.Function)
+	if init == nil {
+		return nil, false
+	}
+	// written nowhere but by the initialiser, and no update outside it
+	for _, mem := range g.Pkg.Members {
+		f, isF := mem.(*ssa.Function)
+		if !isF {
+			continue
+		}
+		bad := false
+		ir.InstrsDeep(f, func(fn *ssa.Function, in ssa.Instruction) {
+			if fn == init {
+				return
+			}
+			switch x := in.(type) {
+			case *ssa.Store:
+				if x.Addr == ssa.Value(g) {
+					bad = true
+				}
+			case *ssa.MapUpdate:
+				if l2, isL := x.Map.(*ssa.UnOp); isL && l2.X == ssa.Value(g) {
+					bad = true
+				}
+			}
+		})
+		if bad {
+			return nil, false
+		}
+	}
+	var out []int64
+	bad := false
+	ir.Instrs(init, func(in ssa.Instruction) {
+		mu, ok := in.(*ssa.MapUpdate)
+		if !ok {
+			return
+		}
+		mk, isMk := mu.Map.(*ssa.MakeMap)
+		if !isMk {
+			return
+		}
+		stored := false
+		for _, u := range *mk.Referrers() {
+			if st, isSt := u.(*ssa.Store); isSt && st.Addr == ssa.Value(g) {
+				stored = true
+			}
+		}
+		if !stored {
+			return
+		}
+		if k, isK := ir.ConstInt(mu.Key); isK {
+			out = append(out, k)
+		} else {
+			bad = true
+		}
+	})
+	if bad {
+		return nil, false
+	}
+	return out, true
+}
+
+// mapTableStructEntries: for a package-level map from constant integers to struct literals of constants,
+// filled by its literal only: key -> field index -> constant. ok=false when any of this fails.
+func mapTableStructEntries(m ssa.Value) (map[int64]map[int]*ssa.Const, bool) {
+	if _, okK := mapTableIntKeys(m); !okK {
+		return nil, false
+	}
+	g := m.(*ssa.UnOp).X.(*ssa.Global)
+	init := g.Pkg.Members["init"].(*ssa.Function)
+	out := map[int64]map[int]*ssa.Const{}
+	bad := false
+	ir.Instrs(init, func(in ssa.Instruction) {
+		mu, ok := in.(*ssa.MapUpdate)
+		if !ok {
+			return
+		}
+		mk, isMk := mu.Map.(*ssa.MakeMap)
+		if !isMk {
+			return
+		}
+		stored := false
+		for _, u := range *mk.Referrers() {
+			if st, isSt := u.(*ssa.Store); isSt && st.Addr == ssa.Value(g) {
+				stored = true
+			}
+		}
+		if !stored {
+			return
+		}
+		k, isK := ir.ConstInt(mu.Key)
+		ld, isLd := mu.Value.(*ssa.UnOp)
+		if !isK || !isLd || ld.Op != token.MUL {
+			bad = true
+			return
+		}
+		al, isAl := ld.X.(*ssa.Alloc)
+		if !isAl {
+			bad = true
+			return
+		}
+		fields := map[int]*ssa.Const{}
+		for _, u := range *al.Referrers() {
+			switch x := u.(type) {
+			case *ssa.FieldAddr:
+				for _, uu := range *x.Referrers() {
+					st, isSt := uu.(*ssa.Store)
+					if !isSt {
+						bad = true
+						continue
+					}
+					cst, isC := st.Val.(*ssa.Const)
+					if !isC {
+						bad = true
+						continue
+					}
+					if _, dup := fields[x.Field]; dup {
+						bad = true
+					}
+					fields[x.Field] = cst
+				}
+			case *ssa.UnOp, *ssa.DebugRef:
+			default:
+				bad = true
+			}
+		}
+		out[k] = fields
+	})
+	if bad || len(out) == 0 {
+		return nil, false
+	}
+	return out, true
+}
+
+// structTableStrings: the constant strings in field fi of every entry of the table lk reads.
+func structTableStrings(lk *ssa.Lookup, fi int) ([]string, bool) {
+	ents, okE := mapTableStructEntries(lk.X)
+	if !okE {
+		return nil, false
+	}
+	var ks []string
+	for _, flds := range ents {
+		if flds[fi] == nil {
+			return nil, false
+		}
+		sv, isS := ir.ConstString(flds[fi])
+		if !isS {
+			return nil, false
+		}
+		ks = append(ks, sv)
+	}
+	return ks, true
+}
+
+// tableField: v = punctuation[c].f (through a comma-ok lookup or not): the lookup and the field index.
+func tableField(v ssa.Value) (*ssa.Lookup, int, bool) {
+	// a struct local that is not promoted to a register: *(&p.f) with p stored once, as a whole
+	if ld, isLd := v.(*ssa.UnOp); isLd && ld.Op == token.MUL {
+		fa, isFA := ld.X.(*ssa.FieldAddr)
+		if !isFA {
+			return nil, 0, false
+		}
+		al, isAl := fa.X.(*ssa.Alloc)
+		if !isAl || al.Heap {
+			return nil, 0, false
+		}
+		var whole ssa.Value
+		for _, u := range *al.Referrers() {
+			switch x := u.(type) {
+			case *ssa.Store:
+				if x.Addr != ssa.Value(al) || whole != nil {
+					return nil, 0, false
+				}
+				whole = x.Val
+			case *ssa.FieldAddr:
+				for _, uu := range *x.Referrers() {
+					if l2, isL := uu.(*ssa.UnOp); !isL || l2.Op != token.MUL {
+						if _, isDbg := uu.(*ssa.DebugRef); !isDbg {
+							return nil, 0, false
+						}
+					}
+				}
+			case *ssa.DebugRef:
+			default:
+				return nil, 0, false
+			}
+		}
+		switch x := whole.(type) {
+		case *ssa.Extract:
+			if lk, isLk := x.Tuple.(*ssa.Lookup); isLk && x.Index == 0 {
+				return lk, fa.Field, true
+			}
+		case *ssa.Lookup:
+			return x, fa.Field, true
+		}
+		return nil, 0, false
+	}
+	fl, ok := v.(*ssa.Field)
+	if !ok {
+		return nil, 0, false
+	}
+	switch x := fl.X.(type) {
+	case *ssa.Extract:
+		if lk, isLk := x.Tuple.(*ssa.Lookup); isLk && x.Index == 0 {
+			return lk, fl.Field, true
+		}
+	case *ssa.Lookup:
+		return x, fl.Field, true
+	}
+	return nil, 0, false
+}
+
 func mapTableValues(m ssa.Value) []string {
 	ld, ok := m.(*ssa.UnOp)
 	if !ok {
@@ -2225,4 +2606,141 @@ func lex6(c *Ctx) {
 		}
 		c.Scope(mk3, "C08", "C18")
 	}
+}
+
+// admittedBytes tabulates, over all 256 values of one byte of the input (the values isByte recognises
+// as reads of it), the branch outcomes conds that depend on that byte alone: comparisons with constants,
+// negations, calls of byte classes (through the LEX-6 interpreter; a boolean argument that cannot be
+// evaluated is tried both ways and the outcomes united). An outcome that does not mention the byte is
+// ignored (it admits every byte); one that mentions it and cannot be evaluated makes the result opaque.
+func admittedBytes(conds []ir.Cond, isByte func(ssa.Value) bool) (admitted [256]bool, opaque bool) {
+	mentions := func(v ssa.Value) bool {
+		seen := map[ssa.Value]bool{}
+		var walk func(v ssa.Value, d int) bool
+		walk = func(v ssa.Value, d int) bool {
+			if v == nil || seen[v] || d > 8 {
+				return false
+			}
+			seen[v] = true
+			if isByte(v) {
+				return true
+			}
+			in, isIn := v.(ssa.Instruction)
+			if !isIn {
+				return false
+			}
+			if _, isPhi := v.(*ssa.Phi); isPhi {
+				return false
+			}
+			for _, op := range in.Operands(nil) {
+				if op != nil && walk(*op, d+1) {
+					return true
+				}
+			}
+			return false
+		}
+		return walk(v, 0)
+	}
+	// eval returns the possible outcomes (at most two: a flag tried both ways)
+	var eval func(v ssa.Value, b int, depth int) ([]constant.Value, bool)
+	eval = func(v ssa.Value, b int, depth int) ([]constant.Value, bool) {
+		if depth > 8 {
+			return nil, false
+		}
+		if isByte(v) {
+			return []constant.Value{constant.MakeInt64(int64(b))}, true
+		}
+		switch x := v.(type) {
+		case *ssa.Const:
+			if x.Value == nil {
+				return nil, false
+			}
+			return []constant.Value{x.Value}, true
+		case *ssa.Convert:
+			return eval(x.X, b, depth+1)
+		case *ssa.UnOp:
+			if x.Op == token.NOT {
+				if os, ok := eval(x.X, b, depth+1); ok {
+					var out []constant.Value
+					for _, o := range os {
+						if o.Kind() != constant.Bool {
+							return nil, false
+						}
+						out = append(out, constant.MakeBool(!constant.BoolVal(o)))
+					}
+					return out, true
+				}
+			}
+		case *ssa.BinOp:
+			switch x.Op {
+			case token.EQL, token.NEQ, token.LSS, token.LEQ, token.GTR, token.GEQ:
+				ls, okL := eval(x.X, b, depth+1)
+				rs, okR := eval(x.Y, b, depth+1)
+				if okL && okR && len(ls) == 1 && len(rs) == 1 && ls[0].Kind() == constant.Int && rs[0].Kind() == constant.Int {
+					return []constant.Value{constant.MakeBool(constant.Compare(ls[0], x.Op, rs[0]))}, true
+				}
+			}
+		case *ssa.Call:
+			g := ir.Static(x)
+			if g == nil {
+				return nil, false
+			}
+			combos := [][]constant.Value{nil}
+			for _, a := range x.Call.Args {
+				var opts []constant.Value
+				if os, ok := eval(a, b, depth+1); ok {
+					opts = os
+				} else if bt, isB := a.Type().Underlying().(*types.Basic); isB && bt.Kind() == types.Bool && !mentions(a) {
+					opts = []constant.Value{constant.MakeBool(true), constant.MakeBool(false)}
+				} else {
+					return nil, false
+				}
+				var next [][]constant.Value
+				for _, cmb := range combos {
+					for _, o := range opts {
+						next = append(next, append(append([]constant.Value(nil), cmb...), o))
+					}
+				}
+				combos = next
+				if len(combos) > 4 {
+					return nil, false
+				}
+			}
+			var out []constant.Value
+			for _, cmb := range combos {
+				r, ok := evalBytePred(g, cmb, 0)
+				if !ok {
+					return nil, false
+				}
+				out = append(out, constant.MakeBool(r))
+			}
+			return out, true
+		}
+		return nil, false
+	}
+	for _, cd := range conds {
+		if _, ok := eval(cd.V, 0, 0); !ok && mentions(cd.V) {
+			return admitted, true
+		}
+	}
+	for b := 0; b < 256; b++ {
+		admitted[b] = true
+		for _, cd := range conds {
+			rs, ok := eval(cd.V, b, 0)
+			if !ok {
+				continue
+			}
+			can := false
+			for _, r := range rs {
+				if r.Kind() == constant.Bool && constant.BoolVal(r) == cd.Want {
+					can = true
+				}
+			}
+			if !can {
+				admitted[b] = false
+				break
+			}
+		}
+	}
+	return admitted, false
 }
